@@ -178,6 +178,24 @@ Proof.
   - destruct (c_wait c); [destruct b|]; reflexivity.
 Qed.
 
+Lemma sdp_step_id l c : c_id (sdp_step l c) = c_id c.
+Proof. unfold sdp_step. destruct (_ && _); reflexivity. Qed.
+Lemma play_step_id vk id c : c_id (play_step vk id c) = c_id c.
+Proof. unfold play_step. destruct (_ && _); reflexivity. Qed.
+Lemma rtsp_step_id w b wr l c : c_id (rtsp_step w b wr l c) = c_id c.
+Proof.
+  unfold rtsp_step. destruct (negb (ckind_eqb (c_kind c) KRtsp)); [reflexivity|].
+  destruct (c_fresh c); [reflexivity|]. destruct wr, (negb w || negb (c_wait c)), b; reflexivity.
+Qed.
+Lemma not_rtsp_eqb c : c_kind c <> KRtsp -> ckind_eqb (c_kind c) KRtsp = false.
+Proof. destruct (c_kind c); intro H; try reflexivity. congruence. Qed.
+Lemma sdp_step_other l c : c_kind c <> KRtsp -> sdp_step l c = c.
+Proof. intro H. unfold sdp_step. now rewrite (not_rtsp_eqb c H). Qed.
+Lemma play_step_other vk id c : c_kind c <> KRtsp -> play_step vk id c = c.
+Proof. intro H. unfold play_step. rewrite (not_rtsp_eqb c H). now rewrite Bool.andb_false_r. Qed.
+Lemma rtsp_step_other w b wr l c : c_kind c <> KRtsp -> rtsp_step w b wr l c = c.
+Proof. intro H. unfold rtsp_step. now rewrite (not_rtsp_eqb c H). Qed.
+
 (* ------------------------------------------------------------------ *)
 (* what an admitted consumer has received, counting what the merge writer
    still holds for it *)
@@ -187,7 +205,7 @@ Definition pending_for (s : gstate) (c : consumer) : list label :=
 Definition vout (s : gstate) (c : consumer) : list label := c_out c ++ pending_for s c.
 
 Definition unit_of (k : ckind) (m : rmsg) (i : nat) : list label :=
-  match k with KRtmp => [LC i] | KFlv => [LT i] | KPush => [lcw m i] | KTs => [] end.
+  match k with KRtmp => [LC i] | KFlv => [LT i] | KPush => [lcw m i] | KTs | KRtsp => [] end.
 
 Definition live_units (s : gstate) (e : ev) (k : ckind) : list label :=
   match e with
@@ -199,6 +217,7 @@ Definition stays (e : ev) (c : consumer) : Prop :=
   match e with
   | EvLeave id => c_id c <> id
   | EvInStop => c_kind c <> KPush
+  | EvDispose => False
   | _ => True
   end.
 
@@ -224,12 +243,12 @@ Qed.
 
 Lemma publish_admitted cf s m id c :
   merge_inv cf s ->
-  find_sub s id = Some c -> admitted c = true -> c_kind c <> KTs ->
+  find_sub s id = Some c -> admitted c = true -> c_kind c <> KTs -> c_kind c <> KRtsp ->
   Nat.eqb (length (rm_payload m)) 0 = false ->
   exists c', find_sub (publish cf s m) id = Some c' /\ c_kind c' = c_kind c /\ admitted c' = true /\
              vout (publish cf s m) c' = vout s c ++ unit_of (c_kind c) m (g_next s).
 Proof.
-  intros Hinv Hfind Hadm Hkts Hne.
+  intros Hinv Hfind Hadm Hkts Hkrt Hne.
   destruct (admitted_flags _ Hadm) as [Hfr Hwt].
   destruct (find_idp_some _ _ _ Hfind) as [Hin Hid].
   unfold find_sub, publish. rewrite Hne. rewrite rtmp_loop_spec.
@@ -243,7 +262,7 @@ Proof.
   (* the consumer after the admission loop *)
   assert (Hf1 : find (idp id) subs1 = Some (fin cache key [] x c)).
   { unfold subs1. rewrite find_map_id by (intro; apply fin_id). unfold find_sub in Hfind. now rewrite Hfind. }
-  destruct (c_kind c) eqn:Hk; [| | |congruence].
+  destruct (c_kind c) eqn:Hk; [| | |congruence|congruence].
   - (* RTMP subscriber *)
     assert (Hfin : fin cache key [] x c = c_append c x).
     { unfold fin, is_rtmp. now rewrite Hk, Hadm. }
@@ -344,7 +363,7 @@ Qed.
 Lemma merge_inv_step cf s e : merge_inv cf s -> merge_inv cf (step cf s e).
 Proof.
   intros Hinv Hm0. specialize (Hinv Hm0).
-  destruct e as [m|k id|id| | |b| | |did]; cbn [step].
+  destruct e as [m|k id|id| | |b| |v|pid|raw|]; cbn [step].
   - unfold publish. destruct (Nat.eqb _ 0); [exact Hinv|].
     rewrite rtmp_loop_spec. rewrite Hinv.
     assert (Hm1 : (if anytrig (g_rtmp_cache s) (is_video_key_nalu m) (g_subs s) then [] else @nil label) = [])
@@ -355,6 +374,8 @@ Proof.
   - destruct (partition _ _). exact Hinv.
   - destruct (g_in s); exact Hinv.
   - destruct (negb (g_in s)); [exact Hinv|]. destruct (partition _ _). exact Hinv.
+  - exact Hinv.
+  - exact Hinv.
   - exact Hinv.
   - exact Hinv.
   - exact Hinv.
@@ -380,13 +401,13 @@ Proof. intro H. unfold vout, pending_for. now rewrite H. Qed.
 
 Theorem step_admitted cf s e id c :
   merge_inv cf s ->
-  find_sub s id = Some c -> admitted c = true -> c_kind c <> KTs -> stays e c ->
+  find_sub s id = Some c -> admitted c = true -> c_kind c <> KTs -> c_kind c <> KRtsp -> stays e c ->
   exists c', find_sub (step cf s e) id = Some c' /\ c_kind c' = c_kind c /\ admitted c' = true /\
              vout (step cf s e) c' = vout s c ++ live_units s e (c_kind c).
 Proof.
-  intros Hinv Hfind Hadm Hkts Hstay.
+  intros Hinv Hfind Hadm Hkts Hkrt Hstay.
   destruct (find_idp_some _ _ _ Hfind) as [Hin Hid].
-  destruct e as [m|k jid|lid| | |b| | |did]; cbn [step live_units].
+  destruct e as [m|k jid|lid| | |b| |v|pid|raw|]; cbn [step live_units].
   - destruct (Nat.eqb (length (rm_payload m)) 0) eqn:Hne.
     + exists c. unfold publish. rewrite Hne. unfold find_sub. cbn [g_subs].
       repeat split; try assumption. unfold vout, pending_for. cbn [g_merge]. now rewrite app_nil_r.
@@ -425,9 +446,25 @@ Proof.
     { destruct (c_kind c); try reflexivity. congruence. }
     rewrite Hc. repeat split; try assumption. unfold vout, pending_for. cbn [g_merge]. now rewrite app_nil_r.
   - exists c. unfold find_sub. cbn [g_subs].
+    rewrite find_map_id by (intro; apply sdp_step_id). unfold find_sub in Hfind. rewrite Hfind. cbn [option_map].
+    rewrite (sdp_step_other _ c Hkrt).
     repeat split; try assumption. unfold vout, pending_for. cbn [g_merge]. now rewrite app_nil_r.
-  - exists c. unfold find_sub. cbn [g_subs].
+  - exists c. unfold find_sub, set_subs. cbn [g_subs].
+    rewrite find_map_id by (intro; apply play_step_id). unfold find_sub in Hfind. rewrite Hfind. cbn [option_map].
+    rewrite (play_step_other _ _ c Hkrt).
     repeat split; try assumption. unfold vout, pending_for. cbn [g_merge]. now rewrite app_nil_r.
+  - exists c. unfold feed_rtp, find_sub. cbn [g_subs].
+    assert (Hf : find (idp id) match rtp_pt raw with
+                               | Some pt => map (rtsp_step (cf_rtsp_wait cf)
+                                   match g_sdp s with None => false | Some _ => rtp_is_boundary (g_vcodec s) raw end
+                                   (rtp_pt_written pt) (LRtp (g_next_rtp s))) (g_subs s)
+                               | None => g_subs s end = Some c).
+    { destruct (rtp_pt raw); [|exact Hfind].
+      rewrite find_map_id by (intro; apply rtsp_step_id). unfold find_sub in Hfind. rewrite Hfind. cbn [option_map].
+      now rewrite (rtsp_step_other _ _ _ _ c Hkrt). }
+    rewrite Hf.
+    repeat split; try assumption. unfold vout, pending_for. cbn [g_merge]. now rewrite app_nil_r.
+  - destruct Hstay.
 Qed.
 
 (* ------------------------------------------------------------------ *)
@@ -447,13 +484,14 @@ Fixpoint attached (id : N) (k : ckind) (h : list ev) : Prop :=
   | [] => True
   | EvLeave id' :: t => id' <> id /\ attached id k t
   | EvInStop :: t => k <> KPush /\ attached id k t
+  | EvDispose :: t => False
   | _ :: t => attached id k t
   end.
 
 Lemma g_next_step cf s e :
   g_next (step cf s e) = match e with EvPublish _ => S (g_next s) | _ => g_next s end.
 Proof.
-  destruct e as [m|k id|id| | |b| | |did]; cbn [step].
+  destruct e as [m|k id|id| | |b| |v|pid|raw|]; cbn [step].
   - unfold publish. destruct (Nat.eqb _ 0); [reflexivity|].
     rewrite rtmp_loop_spec.
     destruct (has_kind KRtmp _); [destruct (cf_merge cf =? 0); [|destruct (cf_merge cf <=? _)]|]; reflexivity.
@@ -465,26 +503,29 @@ Proof.
   - reflexivity.
   - reflexivity.
   - reflexivity.
+  - reflexivity.
+  - reflexivity.
 Qed.
 
 Theorem history_admitted cf : forall h s id c,
   merge_inv cf s ->
-  find_sub s id = Some c -> admitted c = true -> c_kind c <> KTs -> attached id (c_kind c) h ->
+  find_sub s id = Some c -> admitted c = true -> c_kind c <> KTs -> c_kind c <> KRtsp -> attached id (c_kind c) h ->
   exists c', find_sub (fold_left (step cf) h s) id = Some c' /\ c_kind c' = c_kind c /\ admitted c' = true /\
              vout (fold_left (step cf) h s) c' = vout s c ++ units (c_kind c) (g_next s) h.
 Proof.
-  induction h as [|e h IH]; intros s id c Hinv Hfind Hadm Hkts Hatt.
+  induction h as [|e h IH]; intros s id c Hinv Hfind Hadm Hkts Hkrt Hatt.
   - exists c. cbn. repeat split; try assumption. now rewrite app_nil_r.
   - cbn [fold_left].
     assert (Hstay : stays e c /\ attached id (c_kind c) h).
     { destruct (find_idp_some _ _ _ Hfind) as [_ Hid].
       destruct e; cbn [attached stays] in *; try (split; [exact I|exact Hatt]).
       - destruct Hatt as [H1 H2]. split; [congruence|exact H2].
-      - exact Hatt. }
+      - exact Hatt.
+      - destruct Hatt. }
     destruct Hstay as [Hstay Hatt'].
-    destruct (step_admitted cf s e id c Hinv Hfind Hadm Hkts Hstay) as (c1 & Hf1 & Hk1 & Ha1 & Hv1).
-    rewrite <- Hk1 in Hatt', Hkts.
-    destruct (IH (step cf s e) id c1 (merge_inv_step _ _ _ Hinv) Hf1 Ha1 Hkts Hatt') as (c2 & Hf2 & Hk2 & Ha2 & Hv2).
+    destruct (step_admitted cf s e id c Hinv Hfind Hadm Hkts Hkrt Hstay) as (c1 & Hf1 & Hk1 & Ha1 & Hv1).
+    rewrite <- Hk1 in Hatt', Hkts, Hkrt.
+    destruct (IH (step cf s e) id c1 (merge_inv_step _ _ _ Hinv) Hf1 Ha1 Hkts Hkrt Hatt') as (c2 & Hf2 & Hk2 & Ha2 & Hv2).
     exists c2. split; [exact Hf2|]. split; [congruence|]. split; [exact Ha2|].
     rewrite Hv2, Hv1, Hk1, <- app_assoc. f_equal.
     rewrite g_next_step. destruct e; cbn [units live_units]; try reflexivity.
@@ -494,7 +535,7 @@ Lemma run_app cf h0 h : run cf (h0 ++ h) = fold_left (step cf) h (run cf h0).
 Proof. unfold run. apply fold_left_app. Qed.
 
 Theorem contiguous_run cf h0 h id c :
-  find_sub (run cf h0) id = Some c -> admitted c = true -> c_kind c <> KTs ->
+  find_sub (run cf h0) id = Some c -> admitted c = true -> c_kind c <> KTs -> c_kind c <> KRtsp ->
   attached id (c_kind c) h ->
   exists c', find_sub (run cf (h0 ++ h)) id = Some c' /\ c_kind c' = c_kind c /\ admitted c' = true /\
              vout (run cf (h0 ++ h)) c' = vout (run cf h0) c ++ units (c_kind c) (g_next (run cf h0)) h.
@@ -522,7 +563,8 @@ Definition same_but_subs (s s' : gstate) : Prop :=
   g_rtmp_cache s = g_rtmp_cache s' /\ g_flv_cache s = g_flv_cache s' /\ g_ts_cache s = g_ts_cache s' /\
   g_patpmt s = g_patpmt s' /\ g_sdp s = g_sdp s' /\ g_next_sdp s = g_next_sdp s' /\ g_merge s = g_merge s' /\ g_merge_size s = g_merge_size s' /\
   g_video_known s = g_video_known s' /\ Permutation (g_subs s) (g_subs s') /\
-  Permutation (g_gone s) (g_gone s') /\ g_rec_open s = g_rec_open s' /\ g_rec s = g_rec s' /\ g_in s = g_in s'.
+  Permutation (g_gone s) (g_gone s') /\ g_rec_open s = g_rec_open s' /\ g_rec s = g_rec s' /\ g_in s = g_in s' /\
+  g_next_rtp s = g_next_rtp s' /\ g_vcodec s = g_vcodec s' /\ g_hook s = g_hook s' /\ g_trec s = g_trec s'.
 
 Lemma existsb_perm {A} (p : A -> bool) l l' : Permutation l l' -> existsb p l = existsb p l'.
 Proof.
@@ -546,37 +588,43 @@ Qed.
 Theorem step_order_independent cf s s' e :
   same_but_subs s s' -> same_but_subs (step cf s e) (step cf s' e).
 Proof.
-  intros (H1 & H2 & H3 & H4 & H5 & H6 & H7 & Hs1 & Hs2 & H8 & H9 & H10 & Hp & Hg & H11 & H12 & H13).
-  destruct e as [m|k id|id| | |b| | |did]; cbn [step].
+  intros (H1 & H2 & H3 & H4 & H5 & H6 & H7 & Hs1 & Hs2 & H8 & H9 & H10 & Hp & Hg & H11 & H12 & H13 & H14 & H15 & H16 & H17).
+  destruct e as [m|k id|id| | |b| |v|pid|raw|]; cbn [step].
   - unfold publish. rewrite <- H1. destruct (Nat.eqb _ 0).
     + unfold same_but_subs. cbn. repeat split; try assumption; congruence.
-    + rewrite !rtmp_loop_spec. rewrite <- H4, <- H5, <- H8, <- H9, <- H10, <- H11, <- H12.
+    + rewrite !rtmp_loop_spec. rewrite <- H4, <- H5, <- H8, <- H9, <- H10, <- H11, <- H12. rewrite <- ?H13, <- ?H16, <- ?H17.
       rewrite <- (anytrig_perm _ _ _ _ Hp).
       set (F1 := fin (g_rtmp_cache s) (is_video_key_nalu m) [] _).
       assert (Hp1 : Permutation (map F1 (g_subs s)) (map F1 (g_subs s'))) by (now apply Permutation_map).
       rewrite <- (has_kind_perm _ _ _ Hp1).
       destruct (has_kind KRtmp _); [destruct (cf_merge cf =? 0); [|destruct (cf_merge cf <=? _)]|];
         unfold same_but_subs; cbn [g_next g_next_ts g_next_pat g_rtmp_cache g_flv_cache g_ts_cache g_patpmt g_sdp g_next_sdp g_merge
-                                   g_merge_size g_video_known g_subs g_gone g_rec_open g_rec g_in];
+                                   g_merge_size g_video_known g_subs g_gone g_rec_open g_rec g_in g_next_rtp g_vcodec g_hook g_trec];
         repeat split; try assumption; try congruence;
         repeat apply Permutation_map; try assumption.
   - rewrite <- (existsb_perm _ _ _ Hp). destruct (existsb _ _).
     + unfold same_but_subs. repeat split; assumption.
     + unfold same_but_subs, set_subs. cbn. repeat split; try assumption.
-      unfold new_consumer. rewrite <- H10. now apply Permutation_app_tail.
+      unfold new_consumer. rewrite <- H10, <- Hs1. now apply Permutation_app_tail.
   - destruct (partition_perm (fun x => c_id x =? id) _ _ Hp) as [Pa Pb].
     destruct (partition _ (g_subs s)) as [a bb], (partition _ (g_subs s')) as [a' bb']. cbn [fst snd] in *.
     unfold same_but_subs. cbn. repeat split; try assumption. now apply Permutation_app.
-  - rewrite <- H12. replace (g_in s') with (g_in s). destruct (g_in s) eqn:Hgin; unfold same_but_subs; cbn; repeat split; try assumption; try congruence.
+  - rewrite <- H12, <- H16, <- H17. replace (g_in s') with (g_in s). destruct (g_in s) eqn:Hgin; unfold same_but_subs; cbn; repeat split; try assumption; try congruence.
   - replace (g_in s') with (g_in s). destruct (negb (g_in s)) eqn:Hgin.
     + unfold same_but_subs. repeat split; assumption.
     + destruct (partition_perm (fun x => ckind_eqb (c_kind x) KPush) _ _ Hp) as [Pa Pb].
       destruct (partition _ (g_subs s)) as [a bb], (partition _ (g_subs s')) as [a' bb']. cbn [fst snd] in *.
+      rewrite <- H16, <- H17.
       unfold same_but_subs. cbn. repeat split; try assumption; try congruence. now apply Permutation_app.
-  - unfold feed_ts. unfold same_but_subs. cbn. rewrite <- H2, <- H6, <- H7.
+  - unfold feed_ts. unfold same_but_subs. cbn. rewrite <- H2, <- H6, <- H7, <- H13, <- H17.
     repeat split; try assumption; try congruence. now apply Permutation_map.
-  - unfold same_but_subs. cbn. rewrite <- H3. repeat split; try assumption; try congruence. now apply Permutation_map.
-  - unfold same_but_subs. cbn. repeat split; try assumption; congruence.
-  - unfold same_but_subs. cbn. rewrite <- Hs1. repeat split; try assumption; try congruence.
-    apply Permutation_app_tail. assumption.
+  - unfold same_but_subs. cbn. rewrite <- H3, <- H13, <- H17. repeat split; try assumption; try congruence. now apply Permutation_map.
+  - unfold same_but_subs. cbn. rewrite <- Hs2. repeat split; try assumption; try congruence. now apply Permutation_map.
+  - unfold same_but_subs, set_subs. cbn. rewrite <- H10. repeat split; try assumption; try congruence. now apply Permutation_map.
+  - unfold feed_rtp, same_but_subs. cbn. rewrite <- H14, <- H15, <- Hs1.
+    repeat split; try assumption; try congruence.
+    destruct (rtp_pt raw); [now apply Permutation_map|assumption].
+  - unfold same_but_subs. cbn. rewrite <- H13, <- H16. repeat split; try assumption; try congruence.
+    + constructor.
+    + apply Permutation_app; assumption.
 Qed.
